@@ -347,18 +347,34 @@ fn floats<T: Tier + Dom<M = Sh>>(rep: &mut Report) {
         rads.push(-0.37 * j as f64 * 20.0 / jmax as f64);
     }
     let n_ang = rads.len();
+    // axes next to a coordinate axis (either sense): what a tolerant "is this unit_x?" test would send down the
+    // from_angle_x path, off by less than epsilon, by 2^-30 and by 2^-22
+    let mut near_axes: Vec<[f64; 3]> = Vec::new();
+    for k in 0..3 {
+        for sg in [1.0, -1.0] {
+            for d in [T::U / 64.0, 2f64.powi(-30), 2f64.powi(-22)] {
+                let mut a = [0.0; 3];
+                a[k] = sg;
+                a[(k + 1) % 3] = d;
+                a[(k + 2) % 3] = -d / 2.0;
+                let n = (1.0 + 1.25 * d * d).sqrt();
+                near_axes.push(a.map(|x| x / n));
+            }
+        }
+    }
+    let n_axes = axes.len() + near_axes.len();
     rep.cases(
         "rodrigues/native",
         T::NAME,
-        &format!("{} rational unit axes (rounded) x {} angles in radians and the same in degrees x 3 probes x 4 representations", axes.len(), n_ang),
-        axes.len() * n_ang * 2,
+        &format!("{} rational unit axes (rounded) and {} axes next to a coordinate axis x {} angles in radians and the same in degrees x 3 probes x 4 representations", axes.len(), near_axes.len(), n_ang),
+        n_axes * n_ang * 2,
         Guard::states(100).distinct(100),
         |i, ctx| {
             let (ai, rest) = (i / (n_ang * 2), i % (n_ang * 2));
-            let (an, ad) = axes[ai];
+            let (an, ad) = if ai < axes.len() { axes[ai] } else { ([0, 0, 0], 2) };
             let in_deg = rest >= n_ang;
             let th = rads[rest % n_ang];
-            let ax: [T; 3] = std::array::from_fn(|j| T::q(an[j], ad));
+            let ax: [T; 3] = if ai < axes.len() { std::array::from_fn(|j| T::q(an[j], ad)) } else { near_axes[ai - axes.len()].map(|x| num_traits::cast::<f64, T>(x).unwrap()) };
             // the angle value handed over, and its radian measure as the implementation sees it
             let (ang, rad_m): (Rad<T>, Sh) = if in_deg {
                 let d: T = num_traits::cast::<f64, T>(th * 180.0 / PI).unwrap();
@@ -367,7 +383,7 @@ fn floats<T: Tier + Dom<M = Sh>>(rep: &mut Report) {
                 let r: T = num_traits::cast::<f64, T>(th).unwrap();
                 (Rad(r), Sh::exact(r.f()))
             };
-            ctx.describe(|| format!("axis={:?}/{} angle {} {}", an, ad, if in_deg { th * 180.0 / PI } else { th }, if in_deg { "deg" } else { "rad" }));
+            ctx.describe(|| format!("axis={:?} angle {} {}", ax, if in_deg { th * 180.0 / PI } else { th }, if in_deg { "deg" } else { "rad" }));
             ctx.out(&(ai, rest));
             // when the angle came in degrees the conversion happened above through the public From impl
             let cs = rad_m.cos_sin();
